@@ -32,10 +32,11 @@ impl FdBackend {
         Ok(Self { file, len })
     }
 
-    pub(crate) fn write(&self, offset: usize, data: &[u8]) {
+    pub(crate) fn write(&self, offset: usize, data: &[u8]) -> std::io::Result<()> {
         use std::os::unix::fs::FileExt;
-        // pwrite doesn't move the file cursor
-        let _ = self.file.write_at(data, offset as u64);
+        // pwrite doesn't move the file cursor; a failed or short write must reach the caller,
+        // otherwise the entry is acknowledged although it is not (completely) in the file
+        self.file.write_all_at(data, offset as u64)
     }
 
     pub(crate) fn read(&self, offset: usize, dest: &mut [u8]) {
@@ -65,7 +66,7 @@ pub(crate) enum StorageImpl {
 }
 
 impl StorageImpl {
-    pub(crate) fn write(&self, offset: usize, data: &[u8]) {
+    pub(crate) fn write(&self, offset: usize, data: &[u8]) -> std::io::Result<()> {
         match self {
             StorageImpl::Mmap(mmap) => {
                 debug_assert!(offset <= mmap.len());
@@ -74,6 +75,7 @@ impl StorageImpl {
                     let ptr = mmap.as_ptr() as *mut u8;
                     std::ptr::copy_nonoverlapping(data.as_ptr(), ptr.add(offset), data.len());
                 }
+                Ok(())
             }
             StorageImpl::Fd(fd) => fd.write(offset, data),
         }
@@ -168,7 +170,7 @@ impl SharedMmap {
         }))
     }
 
-    pub(crate) fn write(&self, offset: usize, data: &[u8]) {
+    pub(crate) fn write(&self, offset: usize, data: &[u8]) -> std::io::Result<()> {
         #[cfg(walrus_verif)]
         if crate::wal::verif::io_event("write", &self.verif_path, offset as u64, data.len() as u64)
             == crate::wal::verif::IoDecision::Fail
@@ -179,13 +181,14 @@ impl SharedMmap {
         debug_assert!(offset <= self.storage.len());
         debug_assert!(self.storage.len() - offset >= data.len());
 
-        self.storage.write(offset, data);
+        self.storage.write(offset, data)?;
 
         let now_ms = SystemTime::now()
             .duration_since(SystemTime::UNIX_EPOCH)
             .unwrap_or_else(|_| std::time::Duration::from_secs(0))
             .as_millis() as u64;
         self.last_touched_at.store(now_ms, Ordering::Relaxed);
+        Ok(())
     }
 
     pub(crate) fn read(&self, offset: usize, dest: &mut [u8]) {
